@@ -18,7 +18,9 @@ namespace vl {
 struct State {
     bool active = false;
     uint64_t rng = 1;
-    int mode = 0;            // 0 natural, 1 reverse scan, 2 random permutation, 3 forced permutation at one site
+    int mode = 0;            // 0 natural, 1 reverse scan, 2 random permutation, 3 forced permutation at one site,
+                             // 4 laggard: one rank (perm_index mod size) holds back each of its first sends by max_delay_us, nobody else delays
+    int sends_seen = 0;
     bool ssend = false;      // standard-mode sends complete synchronously (MPI permits it: a correct program may not rely on buffering)
     int site_tag = -1;       // for mode 3: the wildcard site (identified by its tag)
     int perm_index = 0;      // for mode 3: index of the permutation of sources
@@ -36,7 +38,7 @@ inline uint64_t next() { uint64_t z = (S.rng += 0x9E3779B97F4A7C15ull); z = (z ^
 inline void reset(uint64_t seed, int mode, int site_tag, int perm_index, int max_delay_us, int gather_us) {
     int rank; PMPI_Comm_rank(MPI_COMM_WORLD, &rank);
     S.active = true; S.rng = seed * 1000003ull + (uint64_t)rank * 7919ull + 11; S.ssend = mode >= 10; mode %= 10; S.mode = mode; S.site_tag = site_tag; S.perm_index = perm_index;
-    S.max_delay_us = max_delay_us; S.gather_us = gather_us; S.epoch = 0; S.trace.clear(); S.wild_choices = S.wild_multi = S.delays = 0;
+    S.max_delay_us = max_delay_us; S.gather_us = gather_us; S.epoch = 0; S.sends_seen = 0; S.trace.clear(); S.wild_choices = S.wild_multi = S.delays = 0;
 }
 inline void stop() { S.active = false; }
 // a communicator is identified by its membership (world ranks), so that all members name it alike
@@ -55,8 +57,13 @@ inline int world_rank_of(MPI_Comm c, int r) {
     MPI_Group g, w; PMPI_Comm_group(c, &g); PMPI_Comm_group(MPI_COMM_WORLD, &w);
     int out; PMPI_Group_translate_ranks(g, 1, &r, w, &out); PMPI_Group_free(&g); PMPI_Group_free(&w); return out;
 }
-inline void maybe_delay() {
+inline void maybe_delay(bool is_send = false) {
     if (!S.active || S.max_delay_us <= 0) return;
+    if (S.mode == 4) {      // the laggard's first sends leave late: everybody else runs ahead (a whole package construction, if nothing stops them)
+        int rank, n; PMPI_Comm_rank(MPI_COMM_WORLD, &rank); PMPI_Comm_size(MPI_COMM_WORLD, &n);
+        if (is_send && rank == S.perm_index % n && S.sends_seen++ < 3) { usleep((useconds_t)S.max_delay_us); S.delays++; }
+        return;
+    }
     if (next() % 4 == 0) { usleep((useconds_t)(next() % (uint64_t)S.max_delay_us)); S.delays++; }
 }
 inline void rec(long long kind, MPI_Comm c, long long peer_world, long long tag, long long extra) {
@@ -110,16 +117,16 @@ int MPI_Irecv(void* buf, int count, MPI_Datatype dt, int source, int tag, MPI_Co
     return PMPI_Irecv(buf, count, dt, source, tag, comm, req);
 }
 int MPI_Isend(const void* buf, int count, MPI_Datatype dt, int dest, int tag, MPI_Comm comm, MPI_Request* req) {
-    vl::maybe_delay(); vl::rec(1, comm, vl::S.active ? vl::world_rank_of(comm, dest) : 0, tag, count);
+    vl::maybe_delay(true); vl::rec(1, comm, vl::S.active ? vl::world_rank_of(comm, dest) : 0, tag, count);
     if (vl::S.active && vl::S.ssend) return PMPI_Issend(buf, count, dt, dest, tag, comm, req);
     return PMPI_Isend(buf, count, dt, dest, tag, comm, req);
 }
 int MPI_Issend(const void* buf, int count, MPI_Datatype dt, int dest, int tag, MPI_Comm comm, MPI_Request* req) {
-    vl::maybe_delay(); vl::rec(1, comm, vl::S.active ? vl::world_rank_of(comm, dest) : 0, tag, count);
+    vl::maybe_delay(true); vl::rec(1, comm, vl::S.active ? vl::world_rank_of(comm, dest) : 0, tag, count);
     return PMPI_Issend(buf, count, dt, dest, tag, comm, req);
 }
 int MPI_Send(const void* buf, int count, MPI_Datatype dt, int dest, int tag, MPI_Comm comm) {
-    vl::maybe_delay(); vl::rec(1, comm, vl::S.active ? vl::world_rank_of(comm, dest) : 0, tag, count);
+    vl::maybe_delay(true); vl::rec(1, comm, vl::S.active ? vl::world_rank_of(comm, dest) : 0, tag, count);
     if (vl::S.active && vl::S.ssend) return PMPI_Ssend(buf, count, dt, dest, tag, comm);
     return PMPI_Send(buf, count, dt, dest, tag, comm);
 }
